@@ -44,6 +44,11 @@ import (
 //   gov  governance-only message delivered as executed proposal (router, no ante)
 //   gov2 same with a foreign metadata.creator (paloma/skyway UpdateParams ignore it)
 //   sig  bad-signature evidence against the sacrificial validator, sent by a user
+//   m…   MULTI-message transactions (op `mtx`): 2-3 messages of the same / different types in one
+//        tx signed by S (m2…: by two signers S and T), creators drawn from S itself, G (granted
+//        S an allowance), B (granted nothing), T; every order incl. the attack orders [G, B] and
+//        [B, G].  The decorator must check every message on its own: a grant from G is no
+//        authorisation for B's message; the whole tx must be rejected and nothing of B's change.
 // The monitor is a diff of all store entries "attributed to B": every entry of
 // the paloma module stores + feegrant + bank + acc whose key or value contains
 // B's address bytes, one of its bech32 renderings (account, valoper) or its eth
@@ -618,8 +623,192 @@ func TestC03(t *testing.T) {
 
 	all := ZooAll()
 	ci := 0
+
+	// ---- multi-message transactions ---------------------------------------------------
+	var userTypes, valTypes []ZooMsg
+	for _, m := range all {
+		switch {
+		case m.AuthoritySigned:
+		case m.NeedsValidator:
+			valTypes = append(valTypes, m)
+		default:
+			userTypes = append(userTypes, m) // includes the metadata-signed governance-only types
+		}
+	}
+	multiCase := func() {
+		pool, types := users, userTypes
+		if r.Rng.Intn(2) == 0 {
+			pool, types = vals, valTypes
+		}
+		perm := r.Rng.Perm(len(pool))
+		S, G, B, T := pool[perm[0]], pool[perm[1]], pool[perm[2]], pool[perm[3]]
+		two := r.Rng.Intn(3) == 0
+		letters := map[byte]c03Principal{'S': S, 'G': G, 'B': B, 'T': T}
+		var pattern string
+		switch r.Rng.Intn(8) {
+		case 0, 1:
+			pattern = "GB" // the attack order
+		case 2:
+			pattern = "BG"
+		case 3:
+			pattern = []string{"GBS", "SGB", "GSB", "BGS", "BSG", "SBG"}[r.Rng.Intn(6)]
+		case 4:
+			pattern = []string{"GS", "SG", "GG", "SS", "GGS"}[r.Rng.Intn(5)] // all authorised
+		default:
+			alphabet := "SGB"
+			if two {
+				alphabet = "SGBT"
+			}
+			n := 2 + r.Rng.Intn(2)
+			for i := 0; i < n; i++ {
+				pattern += string(alphabet[r.Rng.Intn(len(alphabet))])
+			}
+		}
+		hostile := r.Rng.Intn(6) == 0
+		var msgs []sdk.Msg
+		var toks []string
+		var creators []int
+		var metaSigners [][]int
+		var txSigners []*FAAccount
+		var txSignerIDs []int
+		addSigner := func(p c03Principal) {
+			for _, id := range txSignerIDs {
+				if id == p.pid {
+					return
+				}
+			}
+			txSignerIDs = append(txSignerIDs, p.pid)
+			txSigners = append(txSigners, p.acc)
+		}
+		for i := 0; i < len(pattern); i++ {
+			c := letters[pattern[i]]
+			m := types[r.Rng.Intn(len(types))]
+			if i > 0 && r.Rng.Intn(3) == 0 {
+				m, _ = ZooByName(strings.Split(toks[i-1], ";")[0]) // same type twice
+			}
+			msg := m.Build(w, c.acc, r.Rng, hostile)
+			ms := []c03Principal{S}
+			if two {
+				ms = [][]c03Principal{{S}, {T}, {S, T}, {T, S}}[r.Rng.Intn(4)]
+			}
+			var addrs []string
+			var ids []int
+			for _, p := range ms {
+				addrs = append(addrs, p.acc.Addr.String())
+				ids = append(ids, p.pid)
+				addSigner(p)
+			}
+			ZooSetMeta(msg, c.acc.Addr.String(), addrs...)
+			msgs = append(msgs, msg)
+			creators = append(creators, c.pid)
+			metaSigners = append(metaSigners, ids)
+			toks = append(toks, fmt.Sprintf("%s;%s;%d;%s", m.Name, c03Ids(ids...), c.pid, authorityFieldOf(m, msg, byAddr)))
+		}
+		if g := fa.GrantFee(G.acc, S.acc); !g.OK() {
+			t.Fatalf("grant: %s %s", g.Log, g.BlockErr)
+		}
+		grants[[2]int{G.pid, S.pid}] = true
+		victim := B
+		if !strings.Contains(pattern, "B") {
+			victim = G
+			if !strings.Contains(pattern, "G") && !two {
+				victim = T // a bystander
+			}
+		}
+		before := c03Attributed(w, fa.CtxCached(), victim)
+		noise := c03Attributed(w, c03EmptyBlock(w), victim)
+		res := w.DeliverMulti(txSigners, msgs...)
+		after := c03Attributed(w, fa.CtxCached(), victim)
+		pre := res.BlockErr != "" && !res.Panicked
+		for _, msg := range msgs {
+			if p := faRecover(func() {
+				if vb, ok := msg.(sdk.HasValidateBasic); ok && vb.ValidateBasic() != nil {
+					pre = true
+				}
+			}); p != "" {
+				pre = true
+			}
+		}
+		ok := res.OK()
+		antePass := ok || len(res.Events) > 0
+		chgLvl, diff := c03Change(before, after, noise)
+		// every message individually: did its creator sign, or grant to one of its signers?
+		allAuthorised, victimAuthorised := true, false
+		for i, c := range creators {
+			a := false
+			for _, sg := range metaSigners[i] {
+				if sg == c || grants[[2]int{c, sg}] {
+					a = true
+				}
+			}
+			if !a {
+				allAuthorised = false
+			}
+			if a && c == victim.pid {
+				victimAuthorised = true
+			}
+			if _, open := c03Open[strings.Split(toks[i], ";")[0]]; open {
+				victimAuthorised = true
+			}
+		}
+		verdict := "fine"
+		if chgLvl > 0 && (!ok || !victimAuthorised) {
+			verdict = "violation"
+		}
+		h := "rej"
+		if ok {
+			h = "ok"
+		} else if pre {
+			h = "pre"
+		}
+		sc := "m" + pattern
+		if two {
+			sc = "m2" + pattern
+		}
+		line := fmt.Sprintf("mtx %s %s %s %d %s %d %s", sc, c03Ids(txSignerIDs...), grantTok(), victim.pid, h, chgLvl, strings.Join(toks, " "))
+		resTok := "rej"
+		if ok {
+			resTok = "ok"
+		}
+		r.Op(line, fmt.Sprintf("ante=%s res=%s verdict=%s", map[bool]string{true: "pass", false: "rej"}[antePass], resTok, verdict))
+		r.Stat("sc:multi")
+		if two {
+			r.Stat("multi:two-signers")
+		}
+		if pattern == "GB" || pattern == "BG" {
+			r.Stat("multi:attack-order")
+		}
+		r.Stat("res:" + h)
+		if antePass {
+			r.Stat("ante:pass")
+		} else {
+			r.Stat("ante:rej")
+		}
+		if allAuthorised {
+			r.Stat("multi:all-authorised")
+		}
+		if chgLvl > 0 {
+			r.Stat("victim-state-changed")
+		}
+		if verdict == "violation" {
+			r.Hit("cross-principal-write", fmt.Sprintf("multi-message tx %s: state attributed to principal %d changed: %v (code=%d log=%.200s)", sc, victim.pid, diff, res.Code, res.Log), line)
+		}
+		if !allAuthorised && antePass {
+			r.Hit("ante-bypassed", fmt.Sprintf("multi-message tx %s passed the ante chain although a message's creator neither signed nor granted to a signer (accepted=%v)", sc, ok), line)
+		}
+		r.Case("multi/"+sc+"/"+strings.Join(toks, " "), ok || chgLvl > 0 || !antePass)
+		rv := feegrant.NewMsgRevokeAllowance(G.acc.Addr, S.acc.Addr)
+		if g := fa.DeliverTx(G.acc, &rv); !g.OK() {
+			t.Fatalf("revoke: %s %s", g.Log, g.BlockErr)
+		}
+		delete(grants, [2]int{G.pid, S.pid})
+	}
 	for cases := 0; cases < r.N; cases++ {
 		w.Maintain()
+		if r.Rng.Intn(10) < 3 {
+			multiCase()
+			continue
+		}
 		m := all[ci%len(all)]
 		ci++
 		hostile := r.Rng.Intn(4) == 0
